@@ -53,11 +53,11 @@ macro_rules! dimacs_value {
             };
             <$L as flussab_cnf::Dimacs>::from_dimacs(if rng.gen_bool(0.5) { v } else { -v })
         };
-        let n = rng.gen_range(0..4usize);
+        let n = if rng.gen_range(0..3) == 0 { rng.gen_range(4..14usize) } else { rng.gen_range(0..4usize) };
         let clauses: Vec<(u64, Vec<$L>)> = (0..n)
             .map(|_| {
                 let first = match $kind {
-                    "wcnf" => [0u64, 1, u64::MAX, i64::MAX as u64, 12345][rng.gen_range(0..5)],
+                    "wcnf" => [0u64, 1, u64::MAX, u64::MAX, i64::MAX as u64, 12345, 10000000000000000000][rng.gen_range(0..7)],
                     "gcnf" => [0u64, 1, 2, usize::MAX as u64][rng.gen_range(0..4)],
                     _ => 0,
                 };
@@ -439,7 +439,7 @@ pub fn run(opts: &HashMap<String, String>) -> i32 {
         let lits = gen::lit_types(parser);
         let lit = lits[rng.gen_range(0..lits.len())];
         let dimacs = matches!(parser, "cnf" | "wcnf" | "gcnf");
-        set_writer_capacity(if rng.gen_bool(0.5) { 0 } else { [20usize, 21, 22, 24, 27, 32, 40, 41, 47, 64, 100][rng.gen_range(0..11)] });
+        set_writer_capacity(if rng.gen_bool(0.4) { 0 } else { [20usize, 20, 21, 21, 22, 23, 24, 25, 27, 32, 40, 41, 47, 64, 100][rng.gen_range(0..15)] });
         // (i) value -> writer -> parser
         let made: Option<(Vec<u8>, Value, &str)> = match parser {
             "cnf" | "wcnf" | "gcnf" => { let (b, e) = dimacs_rt(parser, lit, &mut rng); Some((b, e, parser)) }
